@@ -184,6 +184,26 @@ func checkCase(c micCase) evid.Outcome {
 			}
 		}
 	}
+	// receive path: the frame as decoded from the wire (16-bit FCnt restored to 32 bits by the receiver) validates
+	{
+		g := c.F
+		g.MIC = want
+		var q lorawan.PHYPayload
+		if err := q.UnmarshalBinary(g.Encode()); err != nil {
+			return evid.Fail("UnmarshalBinary(%x): %v", g.Encode(), err)
+		}
+		q.MACPayload.(*lorawan.MACPayload).FHDR.FCnt = c.F.FCnt
+		var ok bool
+		var err error
+		if up {
+			ok, err = q.ValidateUplinkDataMIC(ver(c.V11), c.ConfFCnt, c.TxDR, c.TxCh, gen.LibKey(toKey(c.FNwk)), gen.LibKey(toKey(c.SNwk)))
+		} else {
+			ok, err = q.ValidateDownlinkDataMIC(ver(c.V11), c.ConfFCnt, gen.LibKey(toKey(c.SNwk)))
+		}
+		if err != nil || !ok {
+			return evid.Fail("the frame %x decoded from the wire carries the specification MIC %x but validation answers %v (err %v)", g.Encode(), want[:], ok, err)
+		}
+	}
 	if up {
 		// ValidateUplinkDataMICF <=> bytes 2..3 equal cmacF[0..1]
 		c11 := c
